@@ -434,3 +434,209 @@ def adjacency_entry_targets_agree(ctx, prog, flows, rid, consequence):
     sets = {p for (p, _, _) in provs}
     ctx.require(len(sets) == 1, rid, "targets-agree", "all %d sites name the target through %s" % (len(provs), sorted(next(iter(sets))) if len(sets) == 1 else "?"),
                 "the sites of add_to_adjacency_vec disagree about the target position: %s -- " % sorted((k, sorted(p)) for (p, k, _) in provs) + consequence, loc_str(h.span))
+
+
+def value_roots(b, place_local, proj, depth=0, seen=None):
+    """Field- and variant-sensitive walk from a (local, projection) back through plain copies, references, tuple /
+    struct / enum constructions and `as Variant` downcasts to where the value is produced: yields ("call", term),
+    ("place", local, proj) for parameters / unresolved places, ("stmt", stmt) for other rvalues.  A definition that
+    builds another variant than the one the projection asks for is skipped (`(_r as Ok).0` does not come from `Err(..)`)."""
+    if seen is None:
+        seen = set()
+    key = (place_local, tuple(str(e) for e in proj))
+    if key in seen or depth > 24:
+        return []
+    seen.add(key)
+    out = []
+    defs = b.assigns_to(place_local)
+    if not defs:
+        return [("place", place_local, list(proj))]
+    for (_bb, d) in defs:
+        if getattr(d, "k", None) == "call":
+            out.append(("call", d, list(proj)))
+            continue
+        rv = d.rv
+        lp = list(d.lhs.proj)
+        pr = list(proj)
+        # a partial write `x.0 = ..` defines only that field
+        if lp:
+            if pr[: len(lp)] != lp:
+                if any(isinstance(e, dict) and "f" in e for e in lp) and pr and isinstance(pr[0], dict) and "f" in pr[0] and isinstance(lp[0], dict) and lp[0].get("f") != pr[0].get("f"):
+                    continue
+                pr = pr
+            else:
+                pr = pr[len(lp):]
+        if rv.k in ("use", "cast") and rv.ops:
+            o = rv.ops[0]
+            if o.place is not None:
+                out += value_roots(b, o.place.local, list(o.place.proj) + pr, depth + 1, seen)
+            else:
+                out.append(("stmt", d))
+        elif rv.k == "ref" and rv.place is not None:
+            pr2 = pr[1:] if pr and pr[0] == "*" else pr
+            out += value_roots(b, rv.place.local, list(rv.place.proj) + pr2, depth + 1, seen)
+        elif rv.k == "aggr":
+            variant = rv.j.get("variant")
+            pr2 = pr
+            if pr2 and isinstance(pr2[0], dict) and "as" in pr2[0]:
+                if variant is not None and pr2[0]["as"] != variant:
+                    continue
+                pr2 = pr2[1:]
+            if pr2 and isinstance(pr2[0], dict) and "f" in pr2[0] and "i" in pr2[0] and pr2[0]["i"] < len(rv.ops):
+                o = rv.ops[pr2[0]["i"]]
+                if o.place is not None:
+                    out += value_roots(b, o.place.local, list(o.place.proj) + pr2[1:], depth + 1, seen)
+                else:
+                    out.append(("stmt", d))
+            else:
+                for o in rv.ops:
+                    if o.place is not None:
+                        out += value_roots(b, o.place.local, list(o.place.proj), depth + 1, seen)
+        else:
+            out.append(("stmt", d))
+    return out
+
+
+class _PlaceAsOp:
+    def __init__(self, place):
+        self.place = place
+        self.j = None
+
+
+THROUGH_FIRST = ("unwrap", "expect", "copied", "cloned", "clone", "deref", "deref_mut", "branch", "into", "borrow", "as_ref", "unwrap_or_default", "to_owned", "unwrap_unchecked")
+KEYED_LOOKUPS = ("get", "index", "get_mut", "get_key_value", "get_node_index")
+
+
+def adjacency_set_updates_agree(ctx, prog, flows, rid, consequence):
+    """add_edge records every edge twice in set form: in the name-keyed maps (`successors` / `predecessors`) and in the
+    position-keyed ones (`successors_map` / `predecessors_map`).  The two are siblings: for every update of one there is,
+    under the same test of specs.directed, the update of the other with the same endpoint as key and the same endpoint as
+    member.  Each key and each member must come from ONE endpoint of the new edge (an ordered position, which is one or
+    the other endpoint depending on a comparison, turns the mirrored update of an undirected edge into a repetition of
+    the first one whenever the endpoints arrive in descending order)."""
+    from props.c01 import controlling_atoms
+    from mir import loc_str
+
+    ctx.rule(rid, "the position-keyed adjacency sets get, under the same test of specs.directed, the update the name-keyed ones get: same endpoint as key, same endpoint as member")
+    b = prog.one("creation::Graph::add_edge")
+    fl = flows.of(b)
+    pn = b.param_names()
+
+    def endpoints(op):
+        """the endpoint fields (`u` / `v` of an Edge) read by the computation of this operand: a field- and
+        variant-sensitive walk to the producing calls, then the data slice of those calls' arguments"""
+        out = set()
+
+        def scan(local, proj):
+            fs = [e["f"] for e in proj if isinstance(e, dict) and "f" in e]
+            if fs and fs[-1] in ("u", "v") and "Edge<" in (b.local_ty(local) if len(fs) == 1 else "Edge<"):
+                out.add(fs[-1])
+                return True
+            return False
+
+        def from_reads(reads):
+            for n_ in fl.slice_local(reads, data_only=True):
+                if n_[0] == "L" and isinstance(n_[1], int):
+                    for (_bb, st) in b.assigns_to(n_[1]):
+                        rv = getattr(st, "rv", None)
+                        if rv is None:
+                            continue
+                        if rv.place is not None:
+                            scan(rv.place.local, rv.place.proj)
+                        for o_ in rv.ops:
+                            if o_.place is not None:
+                                scan(o_.place.local, o_.place.proj)
+                elif n_[0] == "CALL":
+                    for a_ in b.blocks[n_[1]].term.args:
+                        if a_.place is not None:
+                            scan(a_.place.local, a_.place.proj)
+
+        if op.place is None:
+            return frozenset()
+        if scan(op.place.local, op.place.proj):
+            return frozenset(out)
+        work = list(value_roots(b, op.place.local, list(op.place.proj)))
+        done = 0
+        while work and done < 200:
+            done += 1
+            r = work.pop()
+            if r[0] == "place":
+                scan(r[1], r[2])
+            elif r[0] == "call" and scan(r[1].dest.local, r[2]):
+                pass
+            elif r[0] == "call" and r[1].callee and r[1].callee.short.split("::")[-1] in THROUGH_FIRST and r[1].args and r[1].args[0].place is not None:
+                a0 = r[1].args[0].place
+                if not scan(a0.local, a0.proj):
+                    work += value_roots(b, a0.local, [e for e in a0.proj])
+            elif r[0] == "call" and r[1].callee and r[1].callee.short.split("::")[-1] in KEYED_LOOKUPS and len(r[1].args) >= 2 and r[1].args[1].place is not None:
+                # the value found under a key stands for the key (position of a NAME in nodes_map)
+                a1 = r[1].args[1].place
+                if not scan(a1.local, a1.proj):
+                    work += value_roots(b, a1.local, [e for e in a1.proj if e != "*"])
+            elif r[0] == "call":
+                reads = set()
+                for a_ in r[1].args:
+                    if a_.place is not None and scan(a_.place.local, a_.place.proj):
+                        continue
+                    reads |= set(fl._op_reads(a_))
+                if reads:
+                    from_reads(reads)
+            else:
+                st = r[1]
+                reads = set()
+                for o_ in st.rv.ops:
+                    reads |= set(fl._op_reads(o_))
+                if st.rv.place is not None:
+                    reads |= set(fl._place_reads(st.rv.place))
+                if reads:
+                    from_reads(reads)
+        return frozenset(out)
+
+    feats = {"name": set(), "pos": set()}
+    sites = {}
+    for t in b.calls():
+        if not t.callee or t.callee.short.split("::")[-1] != "insert" or len(t.args) != 2 or t.args[0].place is None or "HashSet<" not in t.args[0].place.ty:
+            continue
+        # the receiver is [or_default | or_insert_with | unwrap | ...]*(STORE.entry(KEY) | STORE.get_mut(KEY))
+        store, entry = None, None
+        op = t.args[0]
+        for _ in range(6):
+            if op is None or op.place is None:
+                break
+            d_ = fl.single_def(op.place.local)
+            if d_ is None:
+                break
+            if getattr(d_, "k", None) == "call":
+                if d_.callee and d_.callee.short.split("::")[-1] in ("entry", "get_mut") and len(d_.args) >= 2:
+                    entry = d_
+                    break
+                op = d_.args[0] if d_.args else None
+            elif getattr(d_, "rv", None) is not None and d_.rv.k in ("use", "ref") and (d_.rv.place is not None or d_.rv.ops):
+                op = d_.rv.ops[0] if d_.rv.ops else _PlaceAsOp(d_.rv.place)
+            else:
+                break
+        if entry is not None:
+            for o in fl._operand_pts(entry.args[0]):
+                if o[0] == "P" and field_of(o) in ("successors", "predecessors", "successors_map", "predecessors_map"):
+                    store = field_of(o)
+        if store is None or entry is None:
+            continue
+        dirv = tuple(sorted({v for (te, v, x) in controlling_atoms(fl, t.bb) if isinstance(te, tuple) and te[0] == "place" and te[1].endswith("specs.directed")}))
+        fam = "pos" if store.endswith("_map") else "name"
+        feat = (store.replace("_map", ""), dirv, tuple(sorted(endpoints(entry.args[1]))), tuple(sorted(endpoints(t.args[1]))))
+        feats[fam].add(feat)
+        sites[(fam, feat)] = t
+    n = len(sites)
+    if not ctx.floor(rid, "adjacency_set_updates", n, 6):
+        return n
+
+    def show(f):
+        return "%s[%s] <- %s%s" % (f[0], "/".join(f[2]) or "?", "/".join(f[3]) or "?", "" if not f[1] else " when directed=%s" % "/".join(str(x) for x in f[1]))
+
+    for (fam, feat), t in sorted(sites.items(), key=lambda kv: (kv[0][0], str(kv[0][1]))):
+        single = len(feat[2]) == 1 and len(feat[3]) == 1 and feat[2] != feat[3]
+        other = feats["pos" if fam == "name" else "name"]
+        ctx.require(single and feat in other, rid, "update|%s|%s|%s" % (fam, feat[0], "/".join(str(x) for x in feat[1]) or "always"),
+                    "%s-keyed update %s has its sibling" % ("position" if fam == "pos" else "name", show(feat)),
+                    "add_edge updates %s%s as %s, but the %s-keyed sibling updates are %s: " % (feat[0], "_map" if fam == "pos" else "", show(feat), "name" if fam == "pos" else "position", sorted(show(x) for x in other if x[0] == feat[0])) + consequence, loc_str(t.span))
+    return n
